@@ -1,0 +1,31 @@
+//go:build verif
+
+// Read-only accessors used by the verification harness (/verif, properties C08 and C20).
+// Compiled only with `-tags verif`; nothing here changes behaviour.
+
+package runtime
+
+import (
+	"reflect"
+	goruntime "runtime"
+)
+
+// VerifGoFunctionInfo describes a GoFunction: the symbol of the Go function it wraps (as
+// runtime.FuncForPC spells it), the name it was registered under, the compliance flags solemnly
+// declared for it, and its arity.
+func VerifGoFunctionInfo(f *GoFunction) (sym string, name string, flags ComplianceFlags, nArgs int, hasEtc bool) {
+	if f == nil {
+		return "", "", 0, 0, false
+	}
+	if f.f != nil {
+		if fn := goruntime.FuncForPC(reflect.ValueOf(f.f).Pointer()); fn != nil {
+			sym = fn.Name()
+		}
+	}
+	return sym, f.name, f.safetyFlags, f.nArgs, f.hasEtc
+}
+
+// VerifRequiredFlags returns the flags required by the runtime's current context.
+func VerifRequiredFlags(r *Runtime) ComplianceFlags {
+	return r.RequiredFlags()
+}
